@@ -747,6 +747,7 @@ int cif_parse_internal(struct scanner_s *scanner, int not_utf8, const char *extr
     scanner->buffer = (UChar *) malloc(BUF_SIZE_INITIAL * sizeof(UChar));
     scanner->buffer_size = BUF_SIZE_INITIAL;
     scanner->buffer_limit = 0;
+    scanner->cr_pending = 0;
 
     if (scanner->buffer == NULL) {
         SET_RESULT(CIF_MEMORY_ERROR);
@@ -3180,8 +3181,26 @@ static int get_more_chars(struct scanner_s *scanner) {
     } /* else just append to the currently buffered data */
 
     /* once EOF has been detected, don't attempt to read from the character source any more */
-    nread = scanner->at_eof ? 0 : scanner->read_func(scanner->char_source, scanner->buffer + scanner->buffer_limit,
+    do {
+        nread = scanner->at_eof ? 0 : scanner->read_func(scanner->char_source, scanner->buffer + scanner->buffer_limit,
                 scanner->buffer_size - scanner->buffer_limit, &read_error);
+
+        if (nread > 0) {
+            UChar *fill = scanner->buffer + scanner->buffer_limit;
+            int drop = (scanner->cr_pending && (*fill == UCHAR_NL));
+
+            scanner->cr_pending = (fill[nread - 1] == UCHAR_CR);
+            if (drop) {
+                /* this LF belongs to a CR LF pair whose CR ended the previous fill, and was converted to LF there */
+                nread -= 1;
+                u_memmove(fill, fill + 1, nread);
+                if (nread == 0) {
+                    continue;
+                }
+            }
+        }
+        break;
+    } while (CIF_TRUE);
 
     if (nread < 0) {
         return read_error;
